@@ -540,6 +540,20 @@ func checkC16(c *core.Ctx) {
 				"a token is taken from the reader and neither its text (.concrete) nor the same punctuation is written before the next token is taken: its text is dropped or replaced by something the formatter computed")
 		}
 	}
+	for _, fd := range funcsOfFiles(p, pkg, "format.go") {
+		ast.Inspect(fd.Body, func(n ast.Node) bool {
+			if as, ok := n.(*ast.AssignStmt); ok {
+				for _, l := range as.Lhs {
+					if sel, ok := ast.Unparen(l).(*ast.SelectorExpr); ok && sel.Sel.Name == "concrete" {
+						c.Check("R4", fd.Name.Name+" does not rewrite a token's text", p.Pos(as.Pos()), false,
+							"the formatter assigns to a token's .concrete: what it writes is no longer the text that was read (a decimal literal re-spelled as hex changes its value)")
+					}
+				}
+			}
+			return true
+		})
+	}
+	c.Check("R4", "the formatter never assigns a token's text (scan complete)", "format.go", true, "")
 	c.Count("formatter_next_calls", nNext)
 	c.Floor("formatter_next_calls", 20)
 	// ---- R5
